@@ -264,11 +264,11 @@ pub fn check_global_output(case: &Case, c: &Compiled, out: &Value, reference: &V
         };
         let ok = guarded(|| sum3(&c.out_type, &parts[0], &parts[1], &parts[2]));
         match ok {
-            Ok(s) if &s == reference => None,
+            Ok(s) if crate::vals::typed_eq(&c.out_type, &s, reference) => None,
             Ok(_) => Some(Violation { class: "shares-do-not-sum".into(), detail: "three output shares do not add up to the reference".into() }),
             Err(p) => Some(Violation { class: "shared-output-shape".into(), detail: format!("malformed share: {}", p) }),
         }
-    } else if out == reference {
+    } else if crate::vals::typed_eq(&c.out_type, out, reference) {
         None
     } else {
         Some(Violation { class: "wrong-output".into(), detail: "compiled graph output differs from the source graph output".into() })
@@ -311,7 +311,7 @@ pub fn check_party_outputs(case: &Case, c: &Compiled, run: &RunResult, reference
                     });
                 }
             };
-            if av != bv {
+            if !crate::vals::typed_eq(&c.out_type, &av, &bv) {
                 return Some(Violation {
                     class: "shared-output-inconsistent".into(),
                     detail: format!("share slot {} differs between its holders, parties {} and {}", k, k, (k + 2) % 3),
@@ -320,7 +320,7 @@ pub fn check_party_outputs(case: &Case, c: &Compiled, run: &RunResult, reference
             slots.push(av);
         }
         match guarded(|| sum3(&c.out_type, &slots[0], &slots[1], &slots[2])) {
-            Ok(s) if &s == reference => None,
+            Ok(s) if crate::vals::typed_eq(&c.out_type, &s, reference) => None,
             Ok(_) => Some(Violation { class: "shares-do-not-sum".into(), detail: "the three agreed slots do not reconstruct the reference".into() }),
             Err(p) => Some(Violation { class: "shared-output-shape".into(), detail: p }),
         }
@@ -335,7 +335,7 @@ pub fn check_party_outputs(case: &Case, c: &Compiled, run: &RunResult, reference
                     })
                 }
                 Some(v) => {
-                    if &v != reference {
+                    if !crate::vals::typed_eq(&c.out_type, &v, reference) {
                         return Some(Violation { class: "wrong-output".into(), detail: format!("output party {} holds a wrong result", p) });
                     }
                 }
